@@ -92,12 +92,14 @@ class Engine(ExprMixin, CallMixin):
         self.called_contracts = set()
         self.pending_raises = []
         self.cur = None  # contract being verified
-        self.axioms = list(psum_axioms())
+        self.axioms = []
+        self.psum_enabled = False
         self.unroll = False
         self.max_paths = 4000
         self.npaths = 0
         self._names = {}
         self._seqset = {}
+        self.heavy_ids = set()
         self.qscope = []
 
     # ------------------------------------------------------------------ obligations
@@ -121,6 +123,7 @@ class Engine(ExprMixin, CallMixin):
         self._names[base] = n + 1
         ob = Obligation(f"{base}#p{n}", self.axioms + list(st.pc), goal, kind, where, fn)
         ob.group = base
+        ob.heavy_ids = self.heavy_ids
         ob.trail = list(st.trail)
         self.obligations.append(ob)
         return ob
@@ -337,6 +340,9 @@ class Engine(ExprMixin, CallMixin):
     def assign(self, tgt, v, st, stmt):
         if isinstance(tgt, ast.Name):
             self.rebind(st, tgt.id)
+            lt = self.local_type(tgt.id, st)
+            if lt is not None and isinstance(v, SV) and v.ty != lt:
+                v = self.coerce(v, lt, st, stmt)
             if isinstance(v, Alias):
                 if v.root == tgt.id and not v.sels:
                     return
@@ -406,6 +412,9 @@ class Engine(ExprMixin, CallMixin):
             if isinstance(cur, Alias):
                 self.write_path(st, cur.root, cur.sels, v, stmt)
             else:
+                lt = self.local_type(stmt.target.id, st)
+                if lt is not None and isinstance(v, SV) and v.ty != lt:
+                    v = self.coerce(v, lt, st, stmt)
                 st.env[stmt.target.id] = v
         else:
             self.assign(stmt.target, v, st, stmt)
@@ -590,8 +599,8 @@ class Engine(ExprMixin, CallMixin):
                         isinstance(node.value, ast.Subscript) and isinstance(node.value.slice, ast.Slice)
                     ):
                         b = base_name(node.value)
-                        bv = st.env.get(b) if b else None
-                        immut = isinstance(bv, SV) and not self.is_mutable(bv.ty)
+                        sty = self.static_type(node.value, st)
+                        immut = sty is not None and not self.is_mutable(sty)
                         if b and b != t.id and not immut:
                             alias_of[t.id] = b
                 v.generic_visit(node)
@@ -672,6 +681,38 @@ class Engine(ExprMixin, CallMixin):
                 for s in ast.parse(_dedent(code)).body:
                     vis.visit(s)
         return mods
+
+    def static_type(self, node, st):
+        """Type of a Name/Subscript/Attribute chain from the declared types (None if unknown)."""
+        if isinstance(node, ast.Name):
+            v = st.env.get(node.id)
+            if isinstance(v, SV):
+                return v.ty
+            if isinstance(v, Alias):
+                try:
+                    return self.read_path(st, v.root, v.sels).ty
+                except Exception:
+                    return None
+            return self.local_type(node.id, st)
+        if isinstance(node, ast.Subscript):
+            bt = self.static_type(node.value, st)
+            if isinstance(bt, T.Opt):
+                bt = bt.inner
+            if isinstance(node.slice, ast.Slice):
+                return bt
+            if isinstance(bt, T.Seq):
+                return bt.elem
+            if isinstance(bt, T.Map):
+                return bt.val
+            if isinstance(bt, T.Rec) and isinstance(node.slice, ast.Constant):
+                return bt.fields.get(node.slice.value)
+            return None
+        if isinstance(node, ast.Attribute):
+            bt = self.static_type(node.value, st)
+            if isinstance(bt, T.Rec):
+                return bt.fields.get(node.attr)
+            return None
+        return None
 
     def lookup_contract_for_call(self, fname, st):
         v = st.env.get(fname) if fname in st.env else self.funcs.get(fname)
@@ -1014,6 +1055,13 @@ class Engine(ExprMixin, CallMixin):
         self.context_managers = getattr(self, "context_managers", {})
         self.finally_kind = None
         self.npaths = 0
+        # prefix-sum axioms only where sums are mentioned (they slow down unrelated queries)
+        texts = [src for _, src in contract.requires + contract.ensures] + [c for _, _, c in contract.ghost] + [ast.unparse(s_) for s_ in body]
+        for sp in contract.loops.values():
+            texts += [x[1] if isinstance(x, tuple) else x for x in sp.get("invariant", [])] + sp.get("begin", []) + sp.get("end", [])
+        if any("sum(" in t for t in texts) and not self.psum_enabled:
+            self.psum_enabled = True
+            self.axioms.extend(psum_axioms())
         nloops = self.number_loops(body)
         for k in contract.loops:
             if not (0 <= k < nloops):
